@@ -59,6 +59,9 @@ Frags == <<
   Frag("S", <<"t", "(", "1", ")", "=", "2", ";">>, <<"y", "=", "2", ";">>, "assignment to a non-variable"),
   Frag("S", <<"1", "+=", "2", ";">>, <<"x", "+=", "2", ";">>, "compound assignment to a non-variable"),
   Frag("S", <<"a", "[", "0", "]", "-=", "1", ";">>, <<"a", "-=", "1", ";">>, "compound assignment to a non-variable"),
+  \* (a compound assignment is an expression of the grammar: the same fault wherever an expression may stand)
+  Frag("E", <<"a", "[", "0", "]", "+=", "1">>, <<"a", "+=", "1">>, "compound assignment to a non-variable"),
+  Frag("E", <<"1", "-=", "2">>, <<"x", "-=", "2">>, "compound assignment to a non-variable"),
   Frag("S", <<"t", "(", "1", ")", "*=", "2", ";">>, <<"x", "*=", "2", ";">>, "compound assignment to a non-variable"),
   Frag("S", <<"local", "q", ";">>, <<"q", "=", "0", ";">>, "local outside a function"),
   Frag("E", <<"a", "?", "b", "?", "c", ":", "d", ":", "e">>, <<"a", "?", "b", ":", "e">>, "nested ternary"),
@@ -131,7 +134,15 @@ ECtx == <<
   <<<<"return">>, <<";">>, FALSE>>,
   <<<<"r", "=", "1", "+", "(">>, <<")", ";">>, FALSE>>,
   <<<<"if", "(">>, <<")", "{", "}">>, FALSE>>,
-  <<<<"switch", "(", "1", ")", "{", "case">>, <<"{", "}", "}">>, FALSE>>
+  <<<<"switch", "(", "1", ")", "{", "case">>, <<"{", "}", "}">>, FALSE>>,
+  \* the value of a switch: with a case, with only a default block, with no arm at all
+  <<<<"switch", "(">>, <<")", "{", "case", "1", "{", "}", "}">>, FALSE>>,
+  <<<<"switch", "(">>, <<")", "{", "default", "{", "y", "=", "0", ";", "}", "}">>, FALSE>>,
+  <<<<"switch", "(">>, <<")", "{", "}">>, FALSE>>,
+  <<<<"while", "(">>, <<")", "{", "y", "=", "0", ";", "}">>, FALSE>>,
+  <<<<"foreach", "v", "in">>, <<"{", "}">>, FALSE>>,
+  <<<<"r", "=", "-", "(">>, <<")", ";">>, FALSE>>,
+  <<<<"r", "=", "(">>, <<")", "[", "0", "]", ";">>, FALSE>>
 >>
 NEC == Len(ECtx)
 
